@@ -5,6 +5,7 @@ From Coq Require Import ZArith List Bool.
 From FT.lib Require Import Num Arr ArrLemmas NumArr.
 From FT.gen Require Import Common Interp2d Interp3d Vinterp2d Vinterp3d Fteik2d Fteik3d.
 From FT.proofs Require Import VectorizedProofs.
+From FT.proofs Require ApiGenEq.
 Import ListNotations.
 Open Scope Z_scope.
 
@@ -94,6 +95,1279 @@ Theorem C08_solve3d_list_is_map_of_singles :
        fteik3d_vectorized slow dz dx dy zsrc xsrc ysrc nsweep grad = Ok (map r (pyrange 0 (dim zsrc 0) 1)).
 Proof. exact @VectorizedProofs.solve3d_list_is_map_of_singles. Qed.
 
+(* API layer, extracted from _grid.py on every run: raytrace hands np.asarray(points) to the list kernel as given (no reordering) and returns the kernel's result *)
+Theorem C08_raytrace_hands_the_points_to_the_kernel_as_given_2d :
+  ApiGen.raytrace_2d_call =
+       (String.String (Ascii.Ascii false true false false true true true false)
+          (String.String (Ascii.Ascii true false false false false true true false)
+             (String.String (Ascii.Ascii true false false true true true true false)
+                (String.String (Ascii.Ascii false true false false true true false false)
+                   (String.String (Ascii.Ascii false false true false false true true false) String.EmptyString)))),
+        [String.String (Ascii.Ascii true true false false true true true false)
+           (String.String (Ascii.Ascii true false true false false true true false)
+              (String.String (Ascii.Ascii false false true true false true true false)
+                 (String.String (Ascii.Ascii false true true false false true true false)
+                    (String.String (Ascii.Ascii false true true true false true false false)
+                       (String.String (Ascii.Ascii false true false true true true true false)
+                          (String.String (Ascii.Ascii true false false false false true true false)
+                             (String.String (Ascii.Ascii false false false true true true true false)
+                                (String.String (Ascii.Ascii true false false true false true true false)
+                                   (String.String (Ascii.Ascii true true false false true true true false)
+                                      String.EmptyString)))))))));
+         String.String (Ascii.Ascii true true false false true true true false)
+           (String.String (Ascii.Ascii true false true false false true true false)
+              (String.String (Ascii.Ascii false false true true false true true false)
+                 (String.String (Ascii.Ascii false true true false false true true false)
+                    (String.String (Ascii.Ascii false true true true false true false false)
+                       (String.String (Ascii.Ascii false false false true true true true false)
+                          (String.String (Ascii.Ascii true false false false false true true false)
+                             (String.String (Ascii.Ascii false false false true true true true false)
+                                (String.String (Ascii.Ascii true false false true false true true false)
+                                   (String.String (Ascii.Ascii true true false false true true true false)
+                                      String.EmptyString)))))))));
+         String.String (Ascii.Ascii true true true false false true true false)
+           (String.String (Ascii.Ascii false true false false true true true false)
+              (String.String (Ascii.Ascii true false false false false true true false)
+                 (String.String (Ascii.Ascii false false true false false true true false)
+                    (String.String (Ascii.Ascii true false false true false true true false)
+                       (String.String (Ascii.Ascii true false true false false true true false)
+                          (String.String (Ascii.Ascii false true true true false true true false)
+                             (String.String (Ascii.Ascii false false true false true true true false)
+                                (String.String (Ascii.Ascii true true false true true false true false)
+                                   (String.String (Ascii.Ascii false false false false true true false false)
+                                      (String.String (Ascii.Ascii true false true true true false true false)
+                                         (String.String (Ascii.Ascii false true true true false true false false)
+                                            (String.String (Ascii.Ascii true true true false false true true false)
+                                               (String.String (Ascii.Ascii false true false false true true true false)
+                                                  (String.String
+                                                     (Ascii.Ascii true false false true false true true false)
+                                                     (String.String
+                                                        (Ascii.Ascii false false true false false true true false)
+                                                        String.EmptyString)))))))))))))));
+         String.String (Ascii.Ascii true true true false false true true false)
+           (String.String (Ascii.Ascii false true false false true true true false)
+              (String.String (Ascii.Ascii true false false false false true true false)
+                 (String.String (Ascii.Ascii false false true false false true true false)
+                    (String.String (Ascii.Ascii true false false true false true true false)
+                       (String.String (Ascii.Ascii true false true false false true true false)
+                          (String.String (Ascii.Ascii false true true true false true true false)
+                             (String.String (Ascii.Ascii false false true false true true true false)
+                                (String.String (Ascii.Ascii true true false true true false true false)
+                                   (String.String (Ascii.Ascii true false false false true true false false)
+                                      (String.String (Ascii.Ascii true false true true true false true false)
+                                         (String.String (Ascii.Ascii false true true true false true false false)
+                                            (String.String (Ascii.Ascii true true true false false true true false)
+                                               (String.String (Ascii.Ascii false true false false true true true false)
+                                                  (String.String
+                                                     (Ascii.Ascii true false false true false true true false)
+                                                     (String.String
+                                                        (Ascii.Ascii false false true false false true true false)
+                                                        String.EmptyString)))))))))))))));
+         String.String (Ascii.Ascii false true true true false true true false)
+           (String.String (Ascii.Ascii false false false false true true true false)
+              (String.String (Ascii.Ascii false true true true false true false false)
+                 (String.String (Ascii.Ascii true false false false false true true false)
+                    (String.String (Ascii.Ascii true true false false true true true false)
+                       (String.String (Ascii.Ascii true false false false false true true false)
+                          (String.String (Ascii.Ascii false true false false true true true false)
+                             (String.String (Ascii.Ascii false true false false true true true false)
+                                (String.String (Ascii.Ascii true false false false false true true false)
+                                   (String.String (Ascii.Ascii true false false true true true true false)
+                                      (String.String (Ascii.Ascii false false false true false true false false)
+                                         (String.String (Ascii.Ascii false false false false true true true false)
+                                            (String.String (Ascii.Ascii true true true true false true true false)
+                                               (String.String (Ascii.Ascii true false false true false true true false)
+                                                  (String.String
+                                                     (Ascii.Ascii false true true true false true true false)
+                                                     (String.String
+                                                        (Ascii.Ascii false false true false true true true false)
+                                                        (String.String
+                                                           (Ascii.Ascii true true false false true true true false)
+                                                           (String.String
+                                                              (Ascii.Ascii false false true true false true false false)
+                                                              (String.String
+                                                                 (Ascii.Ascii false false false false false true false
+                                                                    false)
+                                                                 (String.String
+                                                                    (Ascii.Ascii false false true false false true true
+                                                                       false)
+                                                                    (String.String
+                                                                       (Ascii.Ascii false false true false true true
+                                                                          true false)
+                                                                       (String.String
+                                                                          (Ascii.Ascii true false false true true true
+                                                                             true false)
+                                                                          (String.String
+                                                                             (Ascii.Ascii false false false false true
+                                                                                true true false)
+                                                                             (String.String
+                                                                                (Ascii.Ascii true false true false
+                                                                                   false true true false)
+                                                                                (String.String
+                                                                                   (Ascii.Ascii true false true true
+                                                                                      true true false false)
+                                                                                   (String.String
+                                                                                      (Ascii.Ascii false true true true
+                                                                                         false true true false)
+                                                                                      (String.String
+                                                                                         (Ascii.Ascii false false false
+                                                                                          false true true true false)
+                                                                                         (String.String
+                                                                                          (Ascii.Ascii false true true
+                                                                                          true false true false false)
+                                                                                          (String.String
+                                                                                          (Ascii.Ascii false true true
+                                                                                          false false true true false)
+                                                                                          (String.String
+                                                                                          (Ascii.Ascii false false true
+                                                                                          true false true true false)
+                                                                                          (String.String
+                                                                                          (Ascii.Ascii true true true
+                                                                                          true false true true false)
+                                                                                          (String.String
+                                                                                          (Ascii.Ascii true false false
+                                                                                          false false true true false)
+                                                                                          (String.String
+                                                                                          (Ascii.Ascii false false true
+                                                                                          false true true true false)
+                                                                                          (String.String
+                                                                                          (Ascii.Ascii false true true
+                                                                                          false true true false false)
+                                                                                          (String.String
+                                                                                          (Ascii.Ascii false false true
+                                                                                          false true true false false)
+                                                                                          (String.String
+                                                                                          (Ascii.Ascii true false false
+                                                                                          true false true false false)
+                                                                                          String.EmptyString)))))))))))))))))))))))))))))))))));
+         String.String (Ascii.Ascii true true false false true true true false)
+           (String.String (Ascii.Ascii true false true false false true true false)
+              (String.String (Ascii.Ascii false false true true false true true false)
+                 (String.String (Ascii.Ascii false true true false false true true false)
+                    (String.String (Ascii.Ascii false true true true false true false false)
+                       (String.String (Ascii.Ascii true true true true true false true false)
+                          (String.String (Ascii.Ascii true true false false true true true false)
+                             (String.String (Ascii.Ascii true true true true false true true false)
+                                (String.String (Ascii.Ascii true false true false true true true false)
+                                   (String.String (Ascii.Ascii false true false false true true true false)
+                                      (String.String (Ascii.Ascii true true false false false true true false)
+                                         (String.String (Ascii.Ascii true false true false false true true false)
+                                            String.EmptyString)))))))))));
+         String.String (Ascii.Ascii true true false false true true true false)
+           (String.String (Ascii.Ascii false false true false true true true false)
+              (String.String (Ascii.Ascii true false true false false true true false)
+                 (String.String (Ascii.Ascii false false false false true true true false)
+                    (String.String (Ascii.Ascii true true false false true true true false)
+                       (String.String (Ascii.Ascii true false false true false true true false)
+                          (String.String (Ascii.Ascii false true false true true true true false)
+                             (String.String (Ascii.Ascii true false true false false true true false)
+                                String.EmptyString)))))));
+         String.String (Ascii.Ascii true false true true false true true false)
+           (String.String (Ascii.Ascii true false false false false true true false)
+              (String.String (Ascii.Ascii false false false true true true true false)
+                 (String.String (Ascii.Ascii true true true true true false true false)
+                    (String.String (Ascii.Ascii true true false false true true true false)
+                       (String.String (Ascii.Ascii false false true false true true true false)
+                          (String.String (Ascii.Ascii true false true false false true true false)
+                             (String.String (Ascii.Ascii false false false false true true true false)
+                                String.EmptyString)))))));
+         String.String (Ascii.Ascii false false false true false true true false)
+           (String.String (Ascii.Ascii true true true true false true true false)
+              (String.String (Ascii.Ascii false true true true false true true false)
+                 (String.String (Ascii.Ascii true true true true false true true false)
+                    (String.String (Ascii.Ascii false true false false true true true false)
+                       (String.String (Ascii.Ascii true true true true true false true false)
+                          (String.String (Ascii.Ascii true true true false false true true false)
+                             (String.String (Ascii.Ascii false true false false true true true false)
+                                (String.String (Ascii.Ascii true false false true false true true false)
+                                   (String.String (Ascii.Ascii false false true false false true true false)
+                                      String.EmptyString)))))))))]) /\
+       ApiGen.raytrace_2d_binding =
+       [(String.String (Ascii.Ascii false true false true true true true false) String.EmptyString,
+         String.String (Ascii.Ascii true true false false true true true false)
+           (String.String (Ascii.Ascii true false true false false true true false)
+              (String.String (Ascii.Ascii false false true true false true true false)
+                 (String.String (Ascii.Ascii false true true false false true true false)
+                    (String.String (Ascii.Ascii false true true true false true false false)
+                       (String.String (Ascii.Ascii false true false true true true true false)
+                          (String.String (Ascii.Ascii true false false false false true true false)
+                             (String.String (Ascii.Ascii false false false true true true true false)
+                                (String.String (Ascii.Ascii true false false true false true true false)
+                                   (String.String (Ascii.Ascii true true false false true true true false)
+                                      String.EmptyString))))))))));
+        (String.String (Ascii.Ascii false false false true true true true false) String.EmptyString,
+         String.String (Ascii.Ascii true true false false true true true false)
+           (String.String (Ascii.Ascii true false true false false true true false)
+              (String.String (Ascii.Ascii false false true true false true true false)
+                 (String.String (Ascii.Ascii false true true false false true true false)
+                    (String.String (Ascii.Ascii false true true true false true false false)
+                       (String.String (Ascii.Ascii false false false true true true true false)
+                          (String.String (Ascii.Ascii true false false false false true true false)
+                             (String.String (Ascii.Ascii false false false true true true true false)
+                                (String.String (Ascii.Ascii true false false true false true true false)
+                                   (String.String (Ascii.Ascii true true false false true true true false)
+                                      String.EmptyString))))))))));
+        (String.String (Ascii.Ascii false true false true true true true false)
+           (String.String (Ascii.Ascii true true true false false true true false)
+              (String.String (Ascii.Ascii false true false false true true true false)
+                 (String.String (Ascii.Ascii true false false false false true true false)
+                    (String.String (Ascii.Ascii false false true false false true true false) String.EmptyString)))),
+         String.String (Ascii.Ascii true true true false false true true false)
+           (String.String (Ascii.Ascii false true false false true true true false)
+              (String.String (Ascii.Ascii true false false false false true true false)
+                 (String.String (Ascii.Ascii false false true false false true true false)
+                    (String.String (Ascii.Ascii true false false true false true true false)
+                       (String.String (Ascii.Ascii true false true false false true true false)
+                          (String.String (Ascii.Ascii false true true true false true true false)
+                             (String.String (Ascii.Ascii false false true false true true true false)
+                                (String.String (Ascii.Ascii true true false true true false true false)
+                                   (String.String (Ascii.Ascii false false false false true true false false)
+                                      (String.String (Ascii.Ascii true false true true true false true false)
+                                         (String.String (Ascii.Ascii false true true true false true false false)
+                                            (String.String (Ascii.Ascii true true true false false true true false)
+                                               (String.String (Ascii.Ascii false true false false true true true false)
+                                                  (String.String
+                                                     (Ascii.Ascii true false false true false true true false)
+                                                     (String.String
+                                                        (Ascii.Ascii false false true false false true true false)
+                                                        String.EmptyString))))))))))))))));
+        (String.String (Ascii.Ascii false false false true true true true false)
+           (String.String (Ascii.Ascii true true true false false true true false)
+              (String.String (Ascii.Ascii false true false false true true true false)
+                 (String.String (Ascii.Ascii true false false false false true true false)
+                    (String.String (Ascii.Ascii false false true false false true true false) String.EmptyString)))),
+         String.String (Ascii.Ascii true true true false false true true false)
+           (String.String (Ascii.Ascii false true false false true true true false)
+              (String.String (Ascii.Ascii true false false false false true true false)
+                 (String.String (Ascii.Ascii false false true false false true true false)
+                    (String.String (Ascii.Ascii true false false true false true true false)
+                       (String.String (Ascii.Ascii true false true false false true true false)
+                          (String.String (Ascii.Ascii false true true true false true true false)
+                             (String.String (Ascii.Ascii false false true false true true true false)
+                                (String.String (Ascii.Ascii true true false true true false true false)
+                                   (String.String (Ascii.Ascii true false false false true true false false)
+                                      (String.String (Ascii.Ascii true false true true true false true false)
+                                         (String.String (Ascii.Ascii false true true true false true false false)
+                                            (String.String (Ascii.Ascii true true true false false true true false)
+                                               (String.String (Ascii.Ascii false true false false true true true false)
+                                                  (String.String
+                                                     (Ascii.Ascii true false false true false true true false)
+                                                     (String.String
+                                                        (Ascii.Ascii false false true false false true true false)
+                                                        String.EmptyString))))))))))))))));
+        (String.String (Ascii.Ascii false false false false true true true false) String.EmptyString,
+         String.String (Ascii.Ascii false true true true false true true false)
+           (String.String (Ascii.Ascii false false false false true true true false)
+              (String.String (Ascii.Ascii false true true true false true false false)
+                 (String.String (Ascii.Ascii true false false false false true true false)
+                    (String.String (Ascii.Ascii true true false false true true true false)
+                       (String.String (Ascii.Ascii true false false false false true true false)
+                          (String.String (Ascii.Ascii false true false false true true true false)
+                             (String.String (Ascii.Ascii false true false false true true true false)
+                                (String.String (Ascii.Ascii true false false false false true true false)
+                                   (String.String (Ascii.Ascii true false false true true true true false)
+                                      (String.String (Ascii.Ascii false false false true false true false false)
+                                         (String.String (Ascii.Ascii false false false false true true true false)
+                                            (String.String (Ascii.Ascii true true true true false true true false)
+                                               (String.String (Ascii.Ascii true false false true false true true false)
+                                                  (String.String
+                                                     (Ascii.Ascii false true true true false true true false)
+                                                     (String.String
+                                                        (Ascii.Ascii false false true false true true true false)
+                                                        (String.String
+                                                           (Ascii.Ascii true true false false true true true false)
+                                                           (String.String
+                                                              (Ascii.Ascii false false true true false true false false)
+                                                              (String.String
+                                                                 (Ascii.Ascii false false false false false true false
+                                                                    false)
+                                                                 (String.String
+                                                                    (Ascii.Ascii false false true false false true true
+                                                                       false)
+                                                                    (String.String
+                                                                       (Ascii.Ascii false false true false true true
+                                                                          true false)
+                                                                       (String.String
+                                                                          (Ascii.Ascii true false false true true true
+                                                                             true false)
+                                                                          (String.String
+                                                                             (Ascii.Ascii false false false false true
+                                                                                true true false)
+                                                                             (String.String
+                                                                                (Ascii.Ascii true false true false
+                                                                                   false true true false)
+                                                                                (String.String
+                                                                                   (Ascii.Ascii true false true true
+                                                                                      true true false false)
+                                                                                   (String.String
+                                                                                      (Ascii.Ascii false true true true
+                                                                                         false true true false)
+                                                                                      (String.String
+                                                                                         (Ascii.Ascii false false false
+                                                                                          false true true true false)
+                                                                                         (String.String
+                                                                                          (Ascii.Ascii false true true
+                                                                                          true false true false false)
+                                                                                          (String.String
+                                                                                          (Ascii.Ascii false true true
+                                                                                          false false true true false)
+                                                                                          (String.String
+                                                                                          (Ascii.Ascii false false true
+                                                                                          true false true true false)
+                                                                                          (String.String
+                                                                                          (Ascii.Ascii true true true
+                                                                                          true false true true false)
+                                                                                          (String.String
+                                                                                          (Ascii.Ascii true false false
+                                                                                          false false true true false)
+                                                                                          (String.String
+                                                                                          (Ascii.Ascii false false true
+                                                                                          false true true true false)
+                                                                                          (String.String
+                                                                                          (Ascii.Ascii false true true
+                                                                                          false true true false false)
+                                                                                          (String.String
+                                                                                          (Ascii.Ascii false false true
+                                                                                          false true true false false)
+                                                                                          (String.String
+                                                                                          (Ascii.Ascii true false false
+                                                                                          true false true false false)
+                                                                                          String.EmptyString))))))))))))))))))))))))))))))))))));
+        (String.String (Ascii.Ascii true true false false true true true false)
+           (String.String (Ascii.Ascii false true false false true true true false)
+              (String.String (Ascii.Ascii true true false false false true true false) String.EmptyString)),
+         String.String (Ascii.Ascii true true false false true true true false)
+           (String.String (Ascii.Ascii true false true false false true true false)
+              (String.String (Ascii.Ascii false false true true false true true false)
+                 (String.String (Ascii.Ascii false true true false false true true false)
+                    (String.String (Ascii.Ascii false true true true false true false false)
+                       (String.String (Ascii.Ascii true true true true true false true false)
+                          (String.String (Ascii.Ascii true true false false true true true false)
+                             (String.String (Ascii.Ascii true true true true false true true false)
+                                (String.String (Ascii.Ascii true false true false true true true false)
+                                   (String.String (Ascii.Ascii false true false false true true true false)
+                                      (String.String (Ascii.Ascii true true false false false true true false)
+                                         (String.String (Ascii.Ascii true false true false false true true false)
+                                            String.EmptyString))))))))))));
+        (String.String (Ascii.Ascii true true false false true true true false)
+           (String.String (Ascii.Ascii false false true false true true true false)
+              (String.String (Ascii.Ascii true false true false false true true false)
+                 (String.String (Ascii.Ascii false false false false true true true false)
+                    (String.String (Ascii.Ascii true true false false true true true false)
+                       (String.String (Ascii.Ascii true false false true false true true false)
+                          (String.String (Ascii.Ascii false true false true true true true false)
+                             (String.String (Ascii.Ascii true false true false false true true false)
+                                String.EmptyString))))))),
+         String.String (Ascii.Ascii true true false false true true true false)
+           (String.String (Ascii.Ascii false false true false true true true false)
+              (String.String (Ascii.Ascii true false true false false true true false)
+                 (String.String (Ascii.Ascii false false false false true true true false)
+                    (String.String (Ascii.Ascii true true false false true true true false)
+                       (String.String (Ascii.Ascii true false false true false true true false)
+                          (String.String (Ascii.Ascii false true false true true true true false)
+                             (String.String (Ascii.Ascii true false true false false true true false)
+                                String.EmptyString))))))));
+        (String.String (Ascii.Ascii true false true true false true true false)
+           (String.String (Ascii.Ascii true false false false false true true false)
+              (String.String (Ascii.Ascii false false false true true true true false)
+                 (String.String (Ascii.Ascii true true true true true false true false)
+                    (String.String (Ascii.Ascii true true false false true true true false)
+                       (String.String (Ascii.Ascii false false true false true true true false)
+                          (String.String (Ascii.Ascii true false true false false true true false)
+                             (String.String (Ascii.Ascii false false false false true true true false)
+                                String.EmptyString))))))),
+         String.String (Ascii.Ascii true false true true false true true false)
+           (String.String (Ascii.Ascii true false false false false true true false)
+              (String.String (Ascii.Ascii false false false true true true true false)
+                 (String.String (Ascii.Ascii true true true true true false true false)
+                    (String.String (Ascii.Ascii true true false false true true true false)
+                       (String.String (Ascii.Ascii false false true false true true true false)
+                          (String.String (Ascii.Ascii true false true false false true true false)
+                             (String.String (Ascii.Ascii false false false false true true true false)
+                                String.EmptyString))))))));
+        (String.String (Ascii.Ascii false false false true false true true false)
+           (String.String (Ascii.Ascii true true true true false true true false)
+              (String.String (Ascii.Ascii false true true true false true true false)
+                 (String.String (Ascii.Ascii true true true true false true true false)
+                    (String.String (Ascii.Ascii false true false false true true true false)
+                       (String.String (Ascii.Ascii true true true true true false true false)
+                          (String.String (Ascii.Ascii true true true false false true true false)
+                             (String.String (Ascii.Ascii false true false false true true true false)
+                                (String.String (Ascii.Ascii true false false true false true true false)
+                                   (String.String (Ascii.Ascii false false true false false true true false)
+                                      String.EmptyString))))))))),
+         String.String (Ascii.Ascii false false false true false true true false)
+           (String.String (Ascii.Ascii true true true true false true true false)
+              (String.String (Ascii.Ascii false true true true false true true false)
+                 (String.String (Ascii.Ascii true true true true false true true false)
+                    (String.String (Ascii.Ascii false true false false true true true false)
+                       (String.String (Ascii.Ascii true true true true true false true false)
+                          (String.String (Ascii.Ascii true true true false false true true false)
+                             (String.String (Ascii.Ascii false true false false true true true false)
+                                (String.String (Ascii.Ascii true false false true false true true false)
+                                   (String.String (Ascii.Ascii false false true false false true true false)
+                                      String.EmptyString))))))))))] /\
+       map fst ApiGen.raytrace_2d_binding = ApiGen.ray2d_params /\
+       map snd ApiGen.raytrace_2d_binding = snd ApiGen.raytrace_2d_call.
+Proof. exact @ApiGenEq.gen_raytrace_2d_call. Qed.
+
+(* 3D *)
+Theorem C08_raytrace_hands_the_points_to_the_kernel_as_given_3d :
+  ApiGen.raytrace_3d_call =
+       (String.String (Ascii.Ascii false true false false true true true false)
+          (String.String (Ascii.Ascii true false false false false true true false)
+             (String.String (Ascii.Ascii true false false true true true true false)
+                (String.String (Ascii.Ascii true true false false true true false false)
+                   (String.String (Ascii.Ascii false false true false false true true false) String.EmptyString)))),
+        [String.String (Ascii.Ascii true true false false true true true false)
+           (String.String (Ascii.Ascii true false true false false true true false)
+              (String.String (Ascii.Ascii false false true true false true true false)
+                 (String.String (Ascii.Ascii false true true false false true true false)
+                    (String.String (Ascii.Ascii false true true true false true false false)
+                       (String.String (Ascii.Ascii false true false true true true true false)
+                          (String.String (Ascii.Ascii true false false false false true true false)
+                             (String.String (Ascii.Ascii false false false true true true true false)
+                                (String.String (Ascii.Ascii true false false true false true true false)
+                                   (String.String (Ascii.Ascii true true false false true true true false)
+                                      String.EmptyString)))))))));
+         String.String (Ascii.Ascii true true false false true true true false)
+           (String.String (Ascii.Ascii true false true false false true true false)
+              (String.String (Ascii.Ascii false false true true false true true false)
+                 (String.String (Ascii.Ascii false true true false false true true false)
+                    (String.String (Ascii.Ascii false true true true false true false false)
+                       (String.String (Ascii.Ascii false false false true true true true false)
+                          (String.String (Ascii.Ascii true false false false false true true false)
+                             (String.String (Ascii.Ascii false false false true true true true false)
+                                (String.String (Ascii.Ascii true false false true false true true false)
+                                   (String.String (Ascii.Ascii true true false false true true true false)
+                                      String.EmptyString)))))))));
+         String.String (Ascii.Ascii true true false false true true true false)
+           (String.String (Ascii.Ascii true false true false false true true false)
+              (String.String (Ascii.Ascii false false true true false true true false)
+                 (String.String (Ascii.Ascii false true true false false true true false)
+                    (String.String (Ascii.Ascii false true true true false true false false)
+                       (String.String (Ascii.Ascii true false false true true true true false)
+                          (String.String (Ascii.Ascii true false false false false true true false)
+                             (String.String (Ascii.Ascii false false false true true true true false)
+                                (String.String (Ascii.Ascii true false false true false true true false)
+                                   (String.String (Ascii.Ascii true true false false true true true false)
+                                      String.EmptyString)))))))));
+         String.String (Ascii.Ascii true true true false false true true false)
+           (String.String (Ascii.Ascii false true false false true true true false)
+              (String.String (Ascii.Ascii true false false false false true true false)
+                 (String.String (Ascii.Ascii false false true false false true true false)
+                    (String.String (Ascii.Ascii true false false true false true true false)
+                       (String.String (Ascii.Ascii true false true false false true true false)
+                          (String.String (Ascii.Ascii false true true true false true true false)
+                             (String.String (Ascii.Ascii false false true false true true true false)
+                                (String.String (Ascii.Ascii true true false true true false true false)
+                                   (String.String (Ascii.Ascii false false false false true true false false)
+                                      (String.String (Ascii.Ascii true false true true true false true false)
+                                         (String.String (Ascii.Ascii false true true true false true false false)
+                                            (String.String (Ascii.Ascii true true true false false true true false)
+                                               (String.String (Ascii.Ascii false true false false true true true false)
+                                                  (String.String
+                                                     (Ascii.Ascii true false false true false true true false)
+                                                     (String.String
+                                                        (Ascii.Ascii false false true false false true true false)
+                                                        String.EmptyString)))))))))))))));
+         String.String (Ascii.Ascii true true true false false true true false)
+           (String.String (Ascii.Ascii false true false false true true true false)
+              (String.String (Ascii.Ascii true false false false false true true false)
+                 (String.String (Ascii.Ascii false false true false false true true false)
+                    (String.String (Ascii.Ascii true false false true false true true false)
+                       (String.String (Ascii.Ascii true false true false false true true false)
+                          (String.String (Ascii.Ascii false true true true false true true false)
+                             (String.String (Ascii.Ascii false false true false true true true false)
+                                (String.String (Ascii.Ascii true true false true true false true false)
+                                   (String.String (Ascii.Ascii true false false false true true false false)
+                                      (String.String (Ascii.Ascii true false true true true false true false)
+                                         (String.String (Ascii.Ascii false true true true false true false false)
+                                            (String.String (Ascii.Ascii true true true false false true true false)
+                                               (String.String (Ascii.Ascii false true false false true true true false)
+                                                  (String.String
+                                                     (Ascii.Ascii true false false true false true true false)
+                                                     (String.String
+                                                        (Ascii.Ascii false false true false false true true false)
+                                                        String.EmptyString)))))))))))))));
+         String.String (Ascii.Ascii true true true false false true true false)
+           (String.String (Ascii.Ascii false true false false true true true false)
+              (String.String (Ascii.Ascii true false false false false true true false)
+                 (String.String (Ascii.Ascii false false true false false true true false)
+                    (String.String (Ascii.Ascii true false false true false true true false)
+                       (String.String (Ascii.Ascii true false true false false true true false)
+                          (String.String (Ascii.Ascii false true true true false true true false)
+                             (String.String (Ascii.Ascii false false true false true true true false)
+                                (String.String (Ascii.Ascii true true false true true false true false)
+                                   (String.String (Ascii.Ascii false true false false true true false false)
+                                      (String.String (Ascii.Ascii true false true true true false true false)
+                                         (String.String (Ascii.Ascii false true true true false true false false)
+                                            (String.String (Ascii.Ascii true true true false false true true false)
+                                               (String.String (Ascii.Ascii false true false false true true true false)
+                                                  (String.String
+                                                     (Ascii.Ascii true false false true false true true false)
+                                                     (String.String
+                                                        (Ascii.Ascii false false true false false true true false)
+                                                        String.EmptyString)))))))))))))));
+         String.String (Ascii.Ascii false true true true false true true false)
+           (String.String (Ascii.Ascii false false false false true true true false)
+              (String.String (Ascii.Ascii false true true true false true false false)
+                 (String.String (Ascii.Ascii true false false false false true true false)
+                    (String.String (Ascii.Ascii true true false false true true true false)
+                       (String.String (Ascii.Ascii true false false false false true true false)
+                          (String.String (Ascii.Ascii false true false false true true true false)
+                             (String.String (Ascii.Ascii false true false false true true true false)
+                                (String.String (Ascii.Ascii true false false false false true true false)
+                                   (String.String (Ascii.Ascii true false false true true true true false)
+                                      (String.String (Ascii.Ascii false false false true false true false false)
+                                         (String.String (Ascii.Ascii false false false false true true true false)
+                                            (String.String (Ascii.Ascii true true true true false true true false)
+                                               (String.String (Ascii.Ascii true false false true false true true false)
+                                                  (String.String
+                                                     (Ascii.Ascii false true true true false true true false)
+                                                     (String.String
+                                                        (Ascii.Ascii false false true false true true true false)
+                                                        (String.String
+                                                           (Ascii.Ascii true true false false true true true false)
+                                                           (String.String
+                                                              (Ascii.Ascii false false true true false true false false)
+                                                              (String.String
+                                                                 (Ascii.Ascii false false false false false true false
+                                                                    false)
+                                                                 (String.String
+                                                                    (Ascii.Ascii false false true false false true true
+                                                                       false)
+                                                                    (String.String
+                                                                       (Ascii.Ascii false false true false true true
+                                                                          true false)
+                                                                       (String.String
+                                                                          (Ascii.Ascii true false false true true true
+                                                                             true false)
+                                                                          (String.String
+                                                                             (Ascii.Ascii false false false false true
+                                                                                true true false)
+                                                                             (String.String
+                                                                                (Ascii.Ascii true false true false
+                                                                                   false true true false)
+                                                                                (String.String
+                                                                                   (Ascii.Ascii true false true true
+                                                                                      true true false false)
+                                                                                   (String.String
+                                                                                      (Ascii.Ascii false true true true
+                                                                                         false true true false)
+                                                                                      (String.String
+                                                                                         (Ascii.Ascii false false false
+                                                                                          false true true true false)
+                                                                                         (String.String
+                                                                                          (Ascii.Ascii false true true
+                                                                                          true false true false false)
+                                                                                          (String.String
+                                                                                          (Ascii.Ascii false true true
+                                                                                          false false true true false)
+                                                                                          (String.String
+                                                                                          (Ascii.Ascii false false true
+                                                                                          true false true true false)
+                                                                                          (String.String
+                                                                                          (Ascii.Ascii true true true
+                                                                                          true false true true false)
+                                                                                          (String.String
+                                                                                          (Ascii.Ascii true false false
+                                                                                          false false true true false)
+                                                                                          (String.String
+                                                                                          (Ascii.Ascii false false true
+                                                                                          false true true true false)
+                                                                                          (String.String
+                                                                                          (Ascii.Ascii false true true
+                                                                                          false true true false false)
+                                                                                          (String.String
+                                                                                          (Ascii.Ascii false false true
+                                                                                          false true true false false)
+                                                                                          (String.String
+                                                                                          (Ascii.Ascii true false false
+                                                                                          true false true false false)
+                                                                                          String.EmptyString)))))))))))))))))))))))))))))))))));
+         String.String (Ascii.Ascii true true false false true true true false)
+           (String.String (Ascii.Ascii true false true false false true true false)
+              (String.String (Ascii.Ascii false false true true false true true false)
+                 (String.String (Ascii.Ascii false true true false false true true false)
+                    (String.String (Ascii.Ascii false true true true false true false false)
+                       (String.String (Ascii.Ascii true true true true true false true false)
+                          (String.String (Ascii.Ascii true true false false true true true false)
+                             (String.String (Ascii.Ascii true true true true false true true false)
+                                (String.String (Ascii.Ascii true false true false true true true false)
+                                   (String.String (Ascii.Ascii false true false false true true true false)
+                                      (String.String (Ascii.Ascii true true false false false true true false)
+                                         (String.String (Ascii.Ascii true false true false false true true false)
+                                            String.EmptyString)))))))))));
+         String.String (Ascii.Ascii true true false false true true true false)
+           (String.String (Ascii.Ascii false false true false true true true false)
+              (String.String (Ascii.Ascii true false true false false true true false)
+                 (String.String (Ascii.Ascii false false false false true true true false)
+                    (String.String (Ascii.Ascii true true false false true true true false)
+                       (String.String (Ascii.Ascii true false false true false true true false)
+                          (String.String (Ascii.Ascii false true false true true true true false)
+                             (String.String (Ascii.Ascii true false true false false true true false)
+                                String.EmptyString)))))));
+         String.String (Ascii.Ascii true false true true false true true false)
+           (String.String (Ascii.Ascii true false false false false true true false)
+              (String.String (Ascii.Ascii false false false true true true true false)
+                 (String.String (Ascii.Ascii true true true true true false true false)
+                    (String.String (Ascii.Ascii true true false false true true true false)
+                       (String.String (Ascii.Ascii false false true false true true true false)
+                          (String.String (Ascii.Ascii true false true false false true true false)
+                             (String.String (Ascii.Ascii false false false false true true true false)
+                                String.EmptyString)))))));
+         String.String (Ascii.Ascii false false false true false true true false)
+           (String.String (Ascii.Ascii true true true true false true true false)
+              (String.String (Ascii.Ascii false true true true false true true false)
+                 (String.String (Ascii.Ascii true true true true false true true false)
+                    (String.String (Ascii.Ascii false true false false true true true false)
+                       (String.String (Ascii.Ascii true true true true true false true false)
+                          (String.String (Ascii.Ascii true true true false false true true false)
+                             (String.String (Ascii.Ascii false true false false true true true false)
+                                (String.String (Ascii.Ascii true false false true false true true false)
+                                   (String.String (Ascii.Ascii false false true false false true true false)
+                                      String.EmptyString)))))))))]) /\
+       ApiGen.raytrace_3d_binding =
+       [(String.String (Ascii.Ascii false true false true true true true false) String.EmptyString,
+         String.String (Ascii.Ascii true true false false true true true false)
+           (String.String (Ascii.Ascii true false true false false true true false)
+              (String.String (Ascii.Ascii false false true true false true true false)
+                 (String.String (Ascii.Ascii false true true false false true true false)
+                    (String.String (Ascii.Ascii false true true true false true false false)
+                       (String.String (Ascii.Ascii false true false true true true true false)
+                          (String.String (Ascii.Ascii true false false false false true true false)
+                             (String.String (Ascii.Ascii false false false true true true true false)
+                                (String.String (Ascii.Ascii true false false true false true true false)
+                                   (String.String (Ascii.Ascii true true false false true true true false)
+                                      String.EmptyString))))))))));
+        (String.String (Ascii.Ascii false false false true true true true false) String.EmptyString,
+         String.String (Ascii.Ascii true true false false true true true false)
+           (String.String (Ascii.Ascii true false true false false true true false)
+              (String.String (Ascii.Ascii false false true true false true true false)
+                 (String.String (Ascii.Ascii false true true false false true true false)
+                    (String.String (Ascii.Ascii false true true true false true false false)
+                       (String.String (Ascii.Ascii false false false true true true true false)
+                          (String.String (Ascii.Ascii true false false false false true true false)
+                             (String.String (Ascii.Ascii false false false true true true true false)
+                                (String.String (Ascii.Ascii true false false true false true true false)
+                                   (String.String (Ascii.Ascii true true false false true true true false)
+                                      String.EmptyString))))))))));
+        (String.String (Ascii.Ascii true false false true true true true false) String.EmptyString,
+         String.String (Ascii.Ascii true true false false true true true false)
+           (String.String (Ascii.Ascii true false true false false true true false)
+              (String.String (Ascii.Ascii false false true true false true true false)
+                 (String.String (Ascii.Ascii false true true false false true true false)
+                    (String.String (Ascii.Ascii false true true true false true false false)
+                       (String.String (Ascii.Ascii true false false true true true true false)
+                          (String.String (Ascii.Ascii true false false false false true true false)
+                             (String.String (Ascii.Ascii false false false true true true true false)
+                                (String.String (Ascii.Ascii true false false true false true true false)
+                                   (String.String (Ascii.Ascii true true false false true true true false)
+                                      String.EmptyString))))))))));
+        (String.String (Ascii.Ascii false true false true true true true false)
+           (String.String (Ascii.Ascii true true true false false true true false)
+              (String.String (Ascii.Ascii false true false false true true true false)
+                 (String.String (Ascii.Ascii true false false false false true true false)
+                    (String.String (Ascii.Ascii false false true false false true true false) String.EmptyString)))),
+         String.String (Ascii.Ascii true true true false false true true false)
+           (String.String (Ascii.Ascii false true false false true true true false)
+              (String.String (Ascii.Ascii true false false false false true true false)
+                 (String.String (Ascii.Ascii false false true false false true true false)
+                    (String.String (Ascii.Ascii true false false true false true true false)
+                       (String.String (Ascii.Ascii true false true false false true true false)
+                          (String.String (Ascii.Ascii false true true true false true true false)
+                             (String.String (Ascii.Ascii false false true false true true true false)
+                                (String.String (Ascii.Ascii true true false true true false true false)
+                                   (String.String (Ascii.Ascii false false false false true true false false)
+                                      (String.String (Ascii.Ascii true false true true true false true false)
+                                         (String.String (Ascii.Ascii false true true true false true false false)
+                                            (String.String (Ascii.Ascii true true true false false true true false)
+                                               (String.String (Ascii.Ascii false true false false true true true false)
+                                                  (String.String
+                                                     (Ascii.Ascii true false false true false true true false)
+                                                     (String.String
+                                                        (Ascii.Ascii false false true false false true true false)
+                                                        String.EmptyString))))))))))))))));
+        (String.String (Ascii.Ascii false false false true true true true false)
+           (String.String (Ascii.Ascii true true true false false true true false)
+              (String.String (Ascii.Ascii false true false false true true true false)
+                 (String.String (Ascii.Ascii true false false false false true true false)
+                    (String.String (Ascii.Ascii false false true false false true true false) String.EmptyString)))),
+         String.String (Ascii.Ascii true true true false false true true false)
+           (String.String (Ascii.Ascii false true false false true true true false)
+              (String.String (Ascii.Ascii true false false false false true true false)
+                 (String.String (Ascii.Ascii false false true false false true true false)
+                    (String.String (Ascii.Ascii true false false true false true true false)
+                       (String.String (Ascii.Ascii true false true false false true true false)
+                          (String.String (Ascii.Ascii false true true true false true true false)
+                             (String.String (Ascii.Ascii false false true false true true true false)
+                                (String.String (Ascii.Ascii true true false true true false true false)
+                                   (String.String (Ascii.Ascii true false false false true true false false)
+                                      (String.String (Ascii.Ascii true false true true true false true false)
+                                         (String.String (Ascii.Ascii false true true true false true false false)
+                                            (String.String (Ascii.Ascii true true true false false true true false)
+                                               (String.String (Ascii.Ascii false true false false true true true false)
+                                                  (String.String
+                                                     (Ascii.Ascii true false false true false true true false)
+                                                     (String.String
+                                                        (Ascii.Ascii false false true false false true true false)
+                                                        String.EmptyString))))))))))))))));
+        (String.String (Ascii.Ascii true false false true true true true false)
+           (String.String (Ascii.Ascii true true true false false true true false)
+              (String.String (Ascii.Ascii false true false false true true true false)
+                 (String.String (Ascii.Ascii true false false false false true true false)
+                    (String.String (Ascii.Ascii false false true false false true true false) String.EmptyString)))),
+         String.String (Ascii.Ascii true true true false false true true false)
+           (String.String (Ascii.Ascii false true false false true true true false)
+              (String.String (Ascii.Ascii true false false false false true true false)
+                 (String.String (Ascii.Ascii false false true false false true true false)
+                    (String.String (Ascii.Ascii true false false true false true true false)
+                       (String.String (Ascii.Ascii true false true false false true true false)
+                          (String.String (Ascii.Ascii false true true true false true true false)
+                             (String.String (Ascii.Ascii false false true false true true true false)
+                                (String.String (Ascii.Ascii true true false true true false true false)
+                                   (String.String (Ascii.Ascii false true false false true true false false)
+                                      (String.String (Ascii.Ascii true false true true true false true false)
+                                         (String.String (Ascii.Ascii false true true true false true false false)
+                                            (String.String (Ascii.Ascii true true true false false true true false)
+                                               (String.String (Ascii.Ascii false true false false true true true false)
+                                                  (String.String
+                                                     (Ascii.Ascii true false false true false true true false)
+                                                     (String.String
+                                                        (Ascii.Ascii false false true false false true true false)
+                                                        String.EmptyString))))))))))))))));
+        (String.String (Ascii.Ascii false false false false true true true false) String.EmptyString,
+         String.String (Ascii.Ascii false true true true false true true false)
+           (String.String (Ascii.Ascii false false false false true true true false)
+              (String.String (Ascii.Ascii false true true true false true false false)
+                 (String.String (Ascii.Ascii true false false false false true true false)
+                    (String.String (Ascii.Ascii true true false false true true true false)
+                       (String.String (Ascii.Ascii true false false false false true true false)
+                          (String.String (Ascii.Ascii false true false false true true true false)
+                             (String.String (Ascii.Ascii false true false false true true true false)
+                                (String.String (Ascii.Ascii true false false false false true true false)
+                                   (String.String (Ascii.Ascii true false false true true true true false)
+                                      (String.String (Ascii.Ascii false false false true false true false false)
+                                         (String.String (Ascii.Ascii false false false false true true true false)
+                                            (String.String (Ascii.Ascii true true true true false true true false)
+                                               (String.String (Ascii.Ascii true false false true false true true false)
+                                                  (String.String
+                                                     (Ascii.Ascii false true true true false true true false)
+                                                     (String.String
+                                                        (Ascii.Ascii false false true false true true true false)
+                                                        (String.String
+                                                           (Ascii.Ascii true true false false true true true false)
+                                                           (String.String
+                                                              (Ascii.Ascii false false true true false true false false)
+                                                              (String.String
+                                                                 (Ascii.Ascii false false false false false true false
+                                                                    false)
+                                                                 (String.String
+                                                                    (Ascii.Ascii false false true false false true true
+                                                                       false)
+                                                                    (String.String
+                                                                       (Ascii.Ascii false false true false true true
+                                                                          true false)
+                                                                       (String.String
+                                                                          (Ascii.Ascii true false false true true true
+                                                                             true false)
+                                                                          (String.String
+                                                                             (Ascii.Ascii false false false false true
+                                                                                true true false)
+                                                                             (String.String
+                                                                                (Ascii.Ascii true false true false
+                                                                                   false true true false)
+                                                                                (String.String
+                                                                                   (Ascii.Ascii true false true true
+                                                                                      true true false false)
+                                                                                   (String.String
+                                                                                      (Ascii.Ascii false true true true
+                                                                                         false true true false)
+                                                                                      (String.String
+                                                                                         (Ascii.Ascii false false false
+                                                                                          false true true true false)
+                                                                                         (String.String
+                                                                                          (Ascii.Ascii false true true
+                                                                                          true false true false false)
+                                                                                          (String.String
+                                                                                          (Ascii.Ascii false true true
+                                                                                          false false true true false)
+                                                                                          (String.String
+                                                                                          (Ascii.Ascii false false true
+                                                                                          true false true true false)
+                                                                                          (String.String
+                                                                                          (Ascii.Ascii true true true
+                                                                                          true false true true false)
+                                                                                          (String.String
+                                                                                          (Ascii.Ascii true false false
+                                                                                          false false true true false)
+                                                                                          (String.String
+                                                                                          (Ascii.Ascii false false true
+                                                                                          false true true true false)
+                                                                                          (String.String
+                                                                                          (Ascii.Ascii false true true
+                                                                                          false true true false false)
+                                                                                          (String.String
+                                                                                          (Ascii.Ascii false false true
+                                                                                          false true true false false)
+                                                                                          (String.String
+                                                                                          (Ascii.Ascii true false false
+                                                                                          true false true false false)
+                                                                                          String.EmptyString))))))))))))))))))))))))))))))))))));
+        (String.String (Ascii.Ascii true true false false true true true false)
+           (String.String (Ascii.Ascii false true false false true true true false)
+              (String.String (Ascii.Ascii true true false false false true true false) String.EmptyString)),
+         String.String (Ascii.Ascii true true false false true true true false)
+           (String.String (Ascii.Ascii true false true false false true true false)
+              (String.String (Ascii.Ascii false false true true false true true false)
+                 (String.String (Ascii.Ascii false true true false false true true false)
+                    (String.String (Ascii.Ascii false true true true false true false false)
+                       (String.String (Ascii.Ascii true true true true true false true false)
+                          (String.String (Ascii.Ascii true true false false true true true false)
+                             (String.String (Ascii.Ascii true true true true false true true false)
+                                (String.String (Ascii.Ascii true false true false true true true false)
+                                   (String.String (Ascii.Ascii false true false false true true true false)
+                                      (String.String (Ascii.Ascii true true false false false true true false)
+                                         (String.String (Ascii.Ascii true false true false false true true false)
+                                            String.EmptyString))))))))))));
+        (String.String (Ascii.Ascii true true false false true true true false)
+           (String.String (Ascii.Ascii false false true false true true true false)
+              (String.String (Ascii.Ascii true false true false false true true false)
+                 (String.String (Ascii.Ascii false false false false true true true false)
+                    (String.String (Ascii.Ascii true true false false true true true false)
+                       (String.String (Ascii.Ascii true false false true false true true false)
+                          (String.String (Ascii.Ascii false true false true true true true false)
+                             (String.String (Ascii.Ascii true false true false false true true false)
+                                String.EmptyString))))))),
+         String.String (Ascii.Ascii true true false false true true true false)
+           (String.String (Ascii.Ascii false false true false true true true false)
+              (String.String (Ascii.Ascii true false true false false true true false)
+                 (String.String (Ascii.Ascii false false false false true true true false)
+                    (String.String (Ascii.Ascii true true false false true true true false)
+                       (String.String (Ascii.Ascii true false false true false true true false)
+                          (String.String (Ascii.Ascii false true false true true true true false)
+                             (String.String (Ascii.Ascii true false true false false true true false)
+                                String.EmptyString))))))));
+        (String.String (Ascii.Ascii true false true true false true true false)
+           (String.String (Ascii.Ascii true false false false false true true false)
+              (String.String (Ascii.Ascii false false false true true true true false)
+                 (String.String (Ascii.Ascii true true true true true false true false)
+                    (String.String (Ascii.Ascii true true false false true true true false)
+                       (String.String (Ascii.Ascii false false true false true true true false)
+                          (String.String (Ascii.Ascii true false true false false true true false)
+                             (String.String (Ascii.Ascii false false false false true true true false)
+                                String.EmptyString))))))),
+         String.String (Ascii.Ascii true false true true false true true false)
+           (String.String (Ascii.Ascii true false false false false true true false)
+              (String.String (Ascii.Ascii false false false true true true true false)
+                 (String.String (Ascii.Ascii true true true true true false true false)
+                    (String.String (Ascii.Ascii true true false false true true true false)
+                       (String.String (Ascii.Ascii false false true false true true true false)
+                          (String.String (Ascii.Ascii true false true false false true true false)
+                             (String.String (Ascii.Ascii false false false false true true true false)
+                                String.EmptyString))))))));
+        (String.String (Ascii.Ascii false false false true false true true false)
+           (String.String (Ascii.Ascii true true true true false true true false)
+              (String.String (Ascii.Ascii false true true true false true true false)
+                 (String.String (Ascii.Ascii true true true true false true true false)
+                    (String.String (Ascii.Ascii false true false false true true true false)
+                       (String.String (Ascii.Ascii true true true true true false true false)
+                          (String.String (Ascii.Ascii true true true false false true true false)
+                             (String.String (Ascii.Ascii false true false false true true true false)
+                                (String.String (Ascii.Ascii true false false true false true true false)
+                                   (String.String (Ascii.Ascii false false true false false true true false)
+                                      String.EmptyString))))))))),
+         String.String (Ascii.Ascii false false false true false true true false)
+           (String.String (Ascii.Ascii true true true true false true true false)
+              (String.String (Ascii.Ascii false true true true false true true false)
+                 (String.String (Ascii.Ascii true true true true false true true false)
+                    (String.String (Ascii.Ascii false true false false true true true false)
+                       (String.String (Ascii.Ascii true true true true true false true false)
+                          (String.String (Ascii.Ascii true true true false false true true false)
+                             (String.String (Ascii.Ascii false true false false true true true false)
+                                (String.String (Ascii.Ascii true false false true false true true false)
+                                   (String.String (Ascii.Ascii false false true false false true true false)
+                                      String.EmptyString))))))))))] /\
+       map fst ApiGen.raytrace_3d_binding = ApiGen.ray3d_params /\
+       map snd ApiGen.raytrace_3d_binding = snd ApiGen.raytrace_3d_call.
+Proof. exact @ApiGenEq.gen_raytrace_3d_call. Qed.
+
+(* traveltime evaluation *)
+Theorem C08_point_evaluation_hands_the_points_as_given_2d :
+  ApiGen.ttcall_2d_binding =
+       [(String.String (Ascii.Ascii false false false true true true true false) String.EmptyString,
+         String.String (Ascii.Ascii true true false false true true true false)
+           (String.String (Ascii.Ascii true false true false false true true false)
+              (String.String (Ascii.Ascii false false true true false true true false)
+                 (String.String (Ascii.Ascii false true true false false true true false)
+                    (String.String (Ascii.Ascii false true true true false true false false)
+                       (String.String (Ascii.Ascii false true false true true true true false)
+                          (String.String (Ascii.Ascii true false false false false true true false)
+                             (String.String (Ascii.Ascii false false false true true true true false)
+                                (String.String (Ascii.Ascii true false false true false true true false)
+                                   (String.String (Ascii.Ascii true true false false true true true false)
+                                      String.EmptyString))))))))));
+        (String.String (Ascii.Ascii true false false true true true true false) String.EmptyString,
+         String.String (Ascii.Ascii true true false false true true true false)
+           (String.String (Ascii.Ascii true false true false false true true false)
+              (String.String (Ascii.Ascii false false true true false true true false)
+                 (String.String (Ascii.Ascii false true true false false true true false)
+                    (String.String (Ascii.Ascii false true true true false true false false)
+                       (String.String (Ascii.Ascii false false false true true true true false)
+                          (String.String (Ascii.Ascii true false false false false true true false)
+                             (String.String (Ascii.Ascii false false false true true true true false)
+                                (String.String (Ascii.Ascii true false false true false true true false)
+                                   (String.String (Ascii.Ascii true true false false true true true false)
+                                      String.EmptyString))))))))));
+        (String.String (Ascii.Ascii false true true false true true true false) String.EmptyString,
+         String.String (Ascii.Ascii true true false false true true true false)
+           (String.String (Ascii.Ascii true false true false false true true false)
+              (String.String (Ascii.Ascii false false true true false true true false)
+                 (String.String (Ascii.Ascii false true true false false true true false)
+                    (String.String (Ascii.Ascii false true true true false true false false)
+                       (String.String (Ascii.Ascii true true true true true false true false)
+                          (String.String (Ascii.Ascii true true true false false true true false)
+                             (String.String (Ascii.Ascii false true false false true true true false)
+                                (String.String (Ascii.Ascii true false false true false true true false)
+                                   (String.String (Ascii.Ascii false false true false false true true false)
+                                      String.EmptyString))))))))));
+        (String.String (Ascii.Ascii true false false false true true true false) String.EmptyString,
+         String.String (Ascii.Ascii false true true true false true true false)
+           (String.String (Ascii.Ascii false false false false true true true false)
+              (String.String (Ascii.Ascii false true true true false true false false)
+                 (String.String (Ascii.Ascii true false false false false true true false)
+                    (String.String (Ascii.Ascii true true false false true true true false)
+                       (String.String (Ascii.Ascii true false false false false true true false)
+                          (String.String (Ascii.Ascii false true false false true true true false)
+                             (String.String (Ascii.Ascii false true false false true true true false)
+                                (String.String (Ascii.Ascii true false false false false true true false)
+                                   (String.String (Ascii.Ascii true false false true true true true false)
+                                      (String.String (Ascii.Ascii false false false true false true false false)
+                                         (String.String (Ascii.Ascii false false false false true true true false)
+                                            (String.String (Ascii.Ascii true true true true false true true false)
+                                               (String.String (Ascii.Ascii true false false true false true true false)
+                                                  (String.String
+                                                     (Ascii.Ascii false true true true false true true false)
+                                                     (String.String
+                                                        (Ascii.Ascii false false true false true true true false)
+                                                        (String.String
+                                                           (Ascii.Ascii true true false false true true true false)
+                                                           (String.String
+                                                              (Ascii.Ascii false false true true false true false false)
+                                                              (String.String
+                                                                 (Ascii.Ascii false false false false false true false
+                                                                    false)
+                                                                 (String.String
+                                                                    (Ascii.Ascii false false true false false true true
+                                                                       false)
+                                                                    (String.String
+                                                                       (Ascii.Ascii false false true false true true
+                                                                          true false)
+                                                                       (String.String
+                                                                          (Ascii.Ascii true false false true true true
+                                                                             true false)
+                                                                          (String.String
+                                                                             (Ascii.Ascii false false false false true
+                                                                                true true false)
+                                                                             (String.String
+                                                                                (Ascii.Ascii true false true false
+                                                                                   false true true false)
+                                                                                (String.String
+                                                                                   (Ascii.Ascii true false true true
+                                                                                      true true false false)
+                                                                                   (String.String
+                                                                                      (Ascii.Ascii false true true true
+                                                                                         false true true false)
+                                                                                      (String.String
+                                                                                         (Ascii.Ascii false false false
+                                                                                          false true true true false)
+                                                                                         (String.String
+                                                                                          (Ascii.Ascii false true true
+                                                                                          true false true false false)
+                                                                                          (String.String
+                                                                                          (Ascii.Ascii false true true
+                                                                                          false false true true false)
+                                                                                          (String.String
+                                                                                          (Ascii.Ascii false false true
+                                                                                          true false true true false)
+                                                                                          (String.String
+                                                                                          (Ascii.Ascii true true true
+                                                                                          true false true true false)
+                                                                                          (String.String
+                                                                                          (Ascii.Ascii true false false
+                                                                                          false false true true false)
+                                                                                          (String.String
+                                                                                          (Ascii.Ascii false false true
+                                                                                          false true true true false)
+                                                                                          (String.String
+                                                                                          (Ascii.Ascii false true true
+                                                                                          false true true false false)
+                                                                                          (String.String
+                                                                                          (Ascii.Ascii false false true
+                                                                                          false true true false false)
+                                                                                          (String.String
+                                                                                          (Ascii.Ascii true false false
+                                                                                          true false true false false)
+                                                                                          String.EmptyString))))))))))))))))))))))))))))))))))));
+        (String.String (Ascii.Ascii true true false false true true true false)
+           (String.String (Ascii.Ascii false true false false true true true false)
+              (String.String (Ascii.Ascii true true false false false true true false) String.EmptyString)),
+         String.String (Ascii.Ascii true true false false true true true false)
+           (String.String (Ascii.Ascii true false true false false true true false)
+              (String.String (Ascii.Ascii false false true true false true true false)
+                 (String.String (Ascii.Ascii false true true false false true true false)
+                    (String.String (Ascii.Ascii false true true true false true false false)
+                       (String.String (Ascii.Ascii true true true true true false true false)
+                          (String.String (Ascii.Ascii true true false false true true true false)
+                             (String.String (Ascii.Ascii true true true true false true true false)
+                                (String.String (Ascii.Ascii true false true false true true true false)
+                                   (String.String (Ascii.Ascii false true false false true true true false)
+                                      (String.String (Ascii.Ascii true true false false false true true false)
+                                         (String.String (Ascii.Ascii true false true false false true true false)
+                                            String.EmptyString))))))))))));
+        (String.String (Ascii.Ascii false true true false true true true false)
+           (String.String (Ascii.Ascii false true false true true true true false)
+              (String.String (Ascii.Ascii true false true false false true true false)
+                 (String.String (Ascii.Ascii false true false false true true true false)
+                    (String.String (Ascii.Ascii true true true true false true true false) String.EmptyString)))),
+         String.String (Ascii.Ascii true true false false true true true false)
+           (String.String (Ascii.Ascii true false true false false true true false)
+              (String.String (Ascii.Ascii false false true true false true true false)
+                 (String.String (Ascii.Ascii false true true false false true true false)
+                    (String.String (Ascii.Ascii false true true true false true false false)
+                       (String.String (Ascii.Ascii true true true true true false true false)
+                          (String.String (Ascii.Ascii false true true false true true true false)
+                             (String.String (Ascii.Ascii false true false true true true true false)
+                                (String.String (Ascii.Ascii true false true false false true true false)
+                                   (String.String (Ascii.Ascii false true false false true true true false)
+                                      (String.String (Ascii.Ascii true true true true false true true false)
+                                         String.EmptyString)))))))))));
+        (String.String (Ascii.Ascii false true true false false true true false)
+           (String.String (Ascii.Ascii false true true false true true true false)
+              (String.String (Ascii.Ascii true false false false false true true false)
+                 (String.String (Ascii.Ascii false false true true false true true false) String.EmptyString))),
+         String.String (Ascii.Ascii false true true false false true true false)
+           (String.String (Ascii.Ascii true false false true false true true false)
+              (String.String (Ascii.Ascii false false true true false true true false)
+                 (String.String (Ascii.Ascii false false true true false true true false)
+                    (String.String (Ascii.Ascii true true true true true false true false)
+                       (String.String (Ascii.Ascii false true true false true true true false)
+                          (String.String (Ascii.Ascii true false false false false true true false)
+                             (String.String (Ascii.Ascii false false true true false true true false)
+                                (String.String (Ascii.Ascii true false true false true true true false)
+                                   (String.String (Ascii.Ascii true false true false false true true false)
+                                      String.EmptyString))))))))))] /\
+       fst ApiGen.ttcall_2d_call =
+       String.String (Ascii.Ascii false true true false true true true false)
+         (String.String (Ascii.Ascii true false false true false true true false)
+            (String.String (Ascii.Ascii false true true true false true true false)
+               (String.String (Ascii.Ascii false false true false true true true false)
+                  (String.String (Ascii.Ascii true false true false false true true false)
+                     (String.String (Ascii.Ascii false true false false true true true false)
+                        (String.String (Ascii.Ascii false false false false true true true false)
+                           (String.String (Ascii.Ascii false true false false true true false false)
+                              (String.String (Ascii.Ascii false false true false false true true false)
+                                 String.EmptyString)))))))) /\
+       map fst ApiGen.ttcall_2d_binding = ApiGen.vinterp2d_params /\
+       map snd ApiGen.ttcall_2d_binding = snd ApiGen.ttcall_2d_call /\
+       ApiGen.ttcall_2d_params =
+       [String.String (Ascii.Ascii false false false false true true true false)
+          (String.String (Ascii.Ascii true true true true false true true false)
+             (String.String (Ascii.Ascii true false false true false true true false)
+                (String.String (Ascii.Ascii false true true true false true true false)
+                   (String.String (Ascii.Ascii false false true false true true true false)
+                      (String.String (Ascii.Ascii true true false false true true true false) String.EmptyString)))));
+        String.String (Ascii.Ascii false true true false false true true false)
+          (String.String (Ascii.Ascii true false false true false true true false)
+             (String.String (Ascii.Ascii false false true true false true true false)
+                (String.String (Ascii.Ascii false false true true false true true false)
+                   (String.String (Ascii.Ascii true true true true true false true false)
+                      (String.String (Ascii.Ascii false true true false true true true false)
+                         (String.String (Ascii.Ascii true false false false false true true false)
+                            (String.String (Ascii.Ascii false false true true false true true false)
+                               (String.String (Ascii.Ascii true false true false true true true false)
+                                  (String.String (Ascii.Ascii true false true false false true true false)
+                                     (String.String (Ascii.Ascii true false true true true true false false)
+                                        (String.String (Ascii.Ascii false true true true false true true false)
+                                           (String.String (Ascii.Ascii false false false false true true true false)
+                                              (String.String (Ascii.Ascii false true true true false true false false)
+                                                 (String.String
+                                                    (Ascii.Ascii false true true true false true true false)
+                                                    (String.String
+                                                       (Ascii.Ascii true false false false false true true false)
+                                                       (String.String
+                                                          (Ascii.Ascii false true true true false true true false)
+                                                          String.EmptyString))))))))))))))))] /\
+       ApiGen.vinterp2d_defaults =
+       [(String.String (Ascii.Ascii false true true false false true true false)
+           (String.String (Ascii.Ascii false true true false true true true false)
+              (String.String (Ascii.Ascii true false false false false true true false)
+                 (String.String (Ascii.Ascii false false true true false true true false) String.EmptyString))),
+         String.String (Ascii.Ascii false true true true false true true false)
+           (String.String (Ascii.Ascii false false false false true true true false)
+              (String.String (Ascii.Ascii false true true true false true false false)
+                 (String.String (Ascii.Ascii false true true true false true true false)
+                    (String.String (Ascii.Ascii true false false false false true true false)
+                       (String.String (Ascii.Ascii false true true true false true true false) String.EmptyString))))))].
+Proof. exact @ApiGenEq.gen_ttcall_2d_wiring. Qed.
+
+(* the two thread helpers only forward to Numba *)
+Theorem C08_thread_helpers_only_forward_to_numba :
+  ApiGen.helpers_imports =
+       [(String.String (Ascii.Ascii true false false true false true true false)
+           (String.String (Ascii.Ascii true false true true false true true false)
+              (String.String (Ascii.Ascii false false false false true true true false)
+                 (String.String (Ascii.Ascii true true true true false true true false)
+                    (String.String (Ascii.Ascii false true false false true true true false)
+                       (String.String (Ascii.Ascii false false true false true true true false) String.EmptyString))))),
+         [String.String (Ascii.Ascii false true true true false true true false)
+            (String.String (Ascii.Ascii true false true false true true true false)
+               (String.String (Ascii.Ascii true false true true false true true false)
+                  (String.String (Ascii.Ascii false true false false false true true false)
+                     (String.String (Ascii.Ascii true false false false false true true false) String.EmptyString))))])] /\
+       ApiGen.helpers_funcs =
+       [(String.String (Ascii.Ascii true true true false false true true false)
+           (String.String (Ascii.Ascii true false true false false true true false)
+              (String.String (Ascii.Ascii false false true false true true true false)
+                 (String.String (Ascii.Ascii true true true true true false true false)
+                    (String.String (Ascii.Ascii false true true true false true true false)
+                       (String.String (Ascii.Ascii true false true false true true true false)
+                          (String.String (Ascii.Ascii true false true true false true true false)
+                             (String.String (Ascii.Ascii true true true true true false true false)
+                                (String.String (Ascii.Ascii false false true false true true true false)
+                                   (String.String (Ascii.Ascii false false false true false true true false)
+                                      (String.String (Ascii.Ascii false true false false true true true false)
+                                         (String.String (Ascii.Ascii true false true false false true true false)
+                                            (String.String (Ascii.Ascii true false false false false true true false)
+                                               (String.String
+                                                  (Ascii.Ascii false false true false false true true false)
+                                                  (String.String
+                                                     (Ascii.Ascii true true false false true true true false)
+                                                     String.EmptyString)))))))))))))),
+         ([],
+          String.String (Ascii.Ascii false true false false true true true false)
+            (String.String (Ascii.Ascii true false true false false true true false)
+               (String.String (Ascii.Ascii false false true false true true true false)
+                  (String.String (Ascii.Ascii true false true false true true true false)
+                     (String.String (Ascii.Ascii false true false false true true true false)
+                        (String.String (Ascii.Ascii false true true true false true true false)
+                           (String.String (Ascii.Ascii false false false false false true false false)
+                              (String.String (Ascii.Ascii false true true true false true true false)
+                                 (String.String (Ascii.Ascii true false true false true true true false)
+                                    (String.String (Ascii.Ascii true false true true false true true false)
+                                       (String.String (Ascii.Ascii false true false false false true true false)
+                                          (String.String (Ascii.Ascii true false false false false true true false)
+                                             (String.String (Ascii.Ascii false true true true false true false false)
+                                                (String.String (Ascii.Ascii true true true false false true true false)
+                                                   (String.String
+                                                      (Ascii.Ascii true false true false false true true false)
+                                                      (String.String
+                                                         (Ascii.Ascii false false true false true true true false)
+                                                         (String.String
+                                                            (Ascii.Ascii true true true true true false true false)
+                                                            (String.String
+                                                               (Ascii.Ascii false true true true false true true false)
+                                                               (String.String
+                                                                  (Ascii.Ascii true false true false true true true
+                                                                     false)
+                                                                  (String.String
+                                                                     (Ascii.Ascii true false true true false true true
+                                                                        false)
+                                                                     (String.String
+                                                                        (Ascii.Ascii true true true true true false
+                                                                           true false)
+                                                                        (String.String
+                                                                           (Ascii.Ascii false false true false true
+                                                                              true true false)
+                                                                           (String.String
+                                                                              (Ascii.Ascii false false false true false
+                                                                                 true true false)
+                                                                              (String.String
+                                                                                 (Ascii.Ascii false true false false
+                                                                                    true true true false)
+                                                                                 (String.String
+                                                                                    (Ascii.Ascii true false true false
+                                                                                       false true true false)
+                                                                                    (String.String
+                                                                                       (Ascii.Ascii true false false
+                                                                                          false false true true false)
+                                                                                       (String.String
+                                                                                          (Ascii.Ascii false false true
+                                                                                          false false true true false)
+                                                                                          (String.String
+                                                                                          (Ascii.Ascii true true false
+                                                                                          false true true true false)
+                                                                                          (String.String
+                                                                                          (Ascii.Ascii false false
+                                                                                          false true false true false
+                                                                                          false)
+                                                                                          (String.String
+                                                                                          (Ascii.Ascii true false false
+                                                                                          true false true false false)
+                                                                                          String.EmptyString)))))))))))))))))))))))))))))));
+        (String.String (Ascii.Ascii true true false false true true true false)
+           (String.String (Ascii.Ascii true false true false false true true false)
+              (String.String (Ascii.Ascii false false true false true true true false)
+                 (String.String (Ascii.Ascii true true true true true false true false)
+                    (String.String (Ascii.Ascii false true true true false true true false)
+                       (String.String (Ascii.Ascii true false true false true true true false)
+                          (String.String (Ascii.Ascii true false true true false true true false)
+                             (String.String (Ascii.Ascii true true true true true false true false)
+                                (String.String (Ascii.Ascii false false true false true true true false)
+                                   (String.String (Ascii.Ascii false false false true false true true false)
+                                      (String.String (Ascii.Ascii false true false false true true true false)
+                                         (String.String (Ascii.Ascii true false true false false true true false)
+                                            (String.String (Ascii.Ascii true false false false false true true false)
+                                               (String.String
+                                                  (Ascii.Ascii false false true false false true true false)
+                                                  (String.String
+                                                     (Ascii.Ascii true true false false true true true false)
+                                                     String.EmptyString)))))))))))))),
+         ([String.String (Ascii.Ascii false true true true false true true false) String.EmptyString],
+          String.String (Ascii.Ascii false true true true false true true false)
+            (String.String (Ascii.Ascii true false true false true true true false)
+               (String.String (Ascii.Ascii true false true true false true true false)
+                  (String.String (Ascii.Ascii false true false false false true true false)
+                     (String.String (Ascii.Ascii true false false false false true true false)
+                        (String.String (Ascii.Ascii false true true true false true false false)
+                           (String.String (Ascii.Ascii true true false false true true true false)
+                              (String.String (Ascii.Ascii true false true false false true true false)
+                                 (String.String (Ascii.Ascii false false true false true true true false)
+                                    (String.String (Ascii.Ascii true true true true true false true false)
+                                       (String.String (Ascii.Ascii false true true true false true true false)
+                                          (String.String (Ascii.Ascii true false true false true true true false)
+                                             (String.String (Ascii.Ascii true false true true false true true false)
+                                                (String.String (Ascii.Ascii true true true true true false true false)
+                                                   (String.String
+                                                      (Ascii.Ascii false false true false true true true false)
+                                                      (String.String
+                                                         (Ascii.Ascii false false false true false true true false)
+                                                         (String.String
+                                                            (Ascii.Ascii false true false false true true true false)
+                                                            (String.String
+                                                               (Ascii.Ascii true false true false false true true false)
+                                                               (String.String
+                                                                  (Ascii.Ascii true false false false false true true
+                                                                     false)
+                                                                  (String.String
+                                                                     (Ascii.Ascii false false true false false true
+                                                                        true false)
+                                                                     (String.String
+                                                                        (Ascii.Ascii true true false false true true
+                                                                           true false)
+                                                                        (String.String
+                                                                           (Ascii.Ascii false false false true false
+                                                                              true false false)
+                                                                           (String.String
+                                                                              (Ascii.Ascii false true true true false
+                                                                                 true true false)
+                                                                              (String.String
+                                                                                 (Ascii.Ascii true false false true
+                                                                                    false true false false)
+                                                                                 String.EmptyString)))))))))))))))))))))))))].
+Proof. exact @ApiGenEq.gen_helpers. Qed.
+
 Print Assumptions C08_interp2d_list_is_map.
 Print Assumptions C08_interp3d_list_is_map.
 Print Assumptions C08_vinterp2d_list_is_map.
@@ -103,3 +1377,7 @@ Print Assumptions C08_dispatch_list.
 Print Assumptions C08_solve2d_list_spec.
 Print Assumptions C08_solve2d_list_is_map_of_singles.
 Print Assumptions C08_solve3d_list_is_map_of_singles.
+Print Assumptions C08_raytrace_hands_the_points_to_the_kernel_as_given_2d.
+Print Assumptions C08_raytrace_hands_the_points_to_the_kernel_as_given_3d.
+Print Assumptions C08_point_evaluation_hands_the_points_as_given_2d.
+Print Assumptions C08_thread_helpers_only_forward_to_numba.
